@@ -172,6 +172,71 @@ fn check() {
         samples.push(json!({"nested": {"graphs": graphs.len(), "algorithms": 3, "selections_each": 6}}));
     }
 
+    // ---- a hash-by balancer that requests reach by different routes (named by a rule directly, through one balancer,
+    //      through two): the member depends on the key only, not on how the request got there
+    {
+        let log: Log = Default::default();
+        let mut cs = members(4, &log);
+        let mut entries: Vec<(String, Arc<dyn Connector>)> = vec![];
+        for (name, ms, algo) in [
+            ("pool", "m0, m1, m2, m3", "algo:\n  hashBy: request.target.host"),
+            ("tier", "pool", "algo: rr"),
+            ("tier2", "tier", "algo: rr"),
+            ("side", "pool, pool", "algo: random"),
+        ] {
+            let yaml = format!("name: {}\ntype: loadbalance\nconnectors: [{}]\n{}", name, ms, algo);
+            let lb: Arc<dyn Connector> = match catch(|| lb_from_yaml(&yaml)) {
+                Ok(Ok(mut b)) => {
+                    block_on(b.init()).expect("init");
+                    Arc::from(b)
+                }
+                other => machinery(format!("cannot build balancer {name}: {:?}", other.map(|r| r.map(|_| ())))),
+            };
+            entries.push((name.to_string(), lb.clone()));
+            cs.push(lb);
+        }
+        let state = make_state(cs, 0);
+        let mut used_members = std::collections::BTreeSet::new();
+        for h in 0..16 {
+            let host = format!("host{:02}.example", h);
+            let r = req("l", "127.0.0.1:1", TargetAddress::DomainPort(host.clone(), 80));
+            let mut seen: Vec<(String, String)> = vec![];
+            for round in 0..2 {
+                for (ename, entry) in &entries {
+                    selections += 1;
+                    let before = log.lock().unwrap().len();
+                    let res = catch(|| {
+                        block_on(async {
+                            let (ctx, _) = make_request(&state, &r, b"", Default::default()).await;
+                            entry.clone().connect(state.clone(), ctx.clone()).await.is_ok()
+                        })
+                    });
+                    let contacted: Vec<String> = log.lock().unwrap()[before..].iter().map(|l| l.trim_start_matches("connect:").to_string()).collect();
+                    match res {
+                        Ok(true) if contacted.len() == 1 => {
+                            used_members.insert(contacted[0].clone());
+                            seen.push((format!("{ename}#{round}"), contacted[0].clone()));
+                        }
+                        other => chk.violation("loadbalance.hash_by", "selection-failed:routes", format!("{host} via {ename}: {:?} contacted {:?}", other, contacted), json!({"host": host, "entry": ename})),
+                    }
+                }
+            }
+            outcomes.add(&("routes", seen.iter().map(|(_, m)| m.clone()).collect::<std::collections::BTreeSet<_>>().len()));
+            if seen.iter().any(|(_, m)| *m != seen[0].1) {
+                chk.violation(
+                    "loadbalance.hash_by",
+                    "same-key-different-member:by-route",
+                    format!("key {host}: the hash-by balancer picked {:?} depending on the route by which the request reached it", seen),
+                    json!({"host": host, "selections": seen.iter().map(|(e, m)| format!("{e}->{m}")).collect::<Vec<_>>()}),
+                );
+            }
+        }
+        if chk.violation_count() == 0 && used_members.len() < 2 {
+            machinery(format!("routes part is vacuous: 16 keys all went to {:?}", used_members));
+        }
+        samples.push(json!({"hash_by_routes": {"entries": ["pool", "tier -> pool", "tier2 -> tier -> pool", "side -> pool"], "keys": 16, "rounds": 2}}));
+    }
+
     // ---- hashBy: equal key value => equal member; member configured; recorded == used; non-string keys rejected
     let keys: Vec<(&str, fn(&Req) -> String)> = vec![
         ("request.source.host", |r| r.source.ip().to_string()),
@@ -317,7 +382,7 @@ fn check() {
         "exhaustive": true,
         "states": outcomes.len(), "transitions": selections, "traces_validated_against_impl": selections + loom_cov["schedules"].as_u64().unwrap_or(0),
         "evaluations": selections + random_draws, "distinct_nontrivial": outcomes.len(),
-        "rule": "sequential: every member count 1..12, 16, 17 (thorough 1..24, 31..33, 48, 64, 65) x cursor offset 0..2n x window k*n (k=1..3) through the real connect(); hashBy: 7 key expressions x 36-request pool twice x the same member counts; nested balancers (2-3 levels) and refusing members x 3 algorithms: the recorded member is the leaf that was asked to connect; loom: all interleavings of 2-3 threads x 1-3 selections on the real connect() with the cursor as a loom atomic. distinct = distinct (members, key, selected member) observations",
+        "rule": "sequential: every member count 1..12, 16, 17 (thorough 1..24, 31..33, 48, 64, 65) x cursor offset 0..2n x window k*n (k=1..3) through the real connect(); hashBy: 7 key expressions x 36-request pool twice x the same member counts; nested balancers (2-3 levels) and refusing members x 3 algorithms: the recorded member is the leaf that was asked to connect; a hash-by balancer entered directly, through one, through two balancers and through a random one: 16 keys x 2 rounds must reach the same member by every route; loom: all interleavings of 2-3 threads x 1-3 selections on the real connect() with the cursor as a loom atomic. distinct = distinct (members, key, selected member) observations",
         "loom": loom_cov,
         "random_draws_sampled": random_draws,
         "samples": samples,
